@@ -17,7 +17,7 @@ TRUSTED = [
     "VC generator /verif/vf", "z3 5.1 / z3 4.8.12 / cvc5 1.0.3",
     "ASSUMED submit(): hands each batch to a worker exactly once",
     "ASSUMED queue_get(queue).result(): returns the results of some in-flight batch; a task run on denote(deps) yields denote(key)",
-    "ASSUMED convert_legacy_graph identity on task-spec graphs; order() result only used as sort key",
+    "ASSUMED convert_legacy_graph identity on task-spec graphs (C08); order() result only used as sort key; nested_get packing (bounded natively)",
     "ASSUMED user tasks, callbacks, dumps/loads/get_id do not mutate scheduler state; loads(dumps(x)) == x",
     "builtin models: set/dict/list operations, len (cardinality), slicing, range",
 ]
